@@ -13,6 +13,8 @@
 //	-prop c05   acceptance scripts (random bytes, single-field mutants, foreign sources, origin
 //	            echo per request mode, NTS, SCION packet authenticator with a key available)
 //	-prop c13   the SCION client with DRKey authentication enabled only (client clause of C13)
+//	-prop c20   destination of the NTS-protected request for every kind of server / port an
+//	            NTS key exchange may name (client clause of C20)
 package main
 
 import (
@@ -26,7 +28,7 @@ import (
 	"verifharness/lib"
 )
 
-var prop = flag.String("prop", "c03", "c03|c05|c13: which generator streams to run")
+var prop = flag.String("prop", "c03", "c03|c05|c13|c20: which generator streams to run")
 
 // probeMalformedAuth adds responses whose authenticator option data is not 28 bytes long to the
 // SPAO stream (and empty paths of an unregistered type). On by default since the repair dd91497;
@@ -130,6 +132,9 @@ func gen(c *lib.Ctx) {
 		genSPAO(c, "c05spao")
 		genAddr(c, "c05addr")
 		genTsWindow(c, "c05tswin")
+		genNTSDest(c, "c20ntsdest")
+	case "c20":
+		genNTSDest(c, "c20ntsdest")
 	case "c13":
 		genSPAO(c, "c13spao")
 	default:
